@@ -1466,10 +1466,13 @@ def owmr_system(num_retailers, node_order_in_system=None, node_order_in_lists=No
 
 	# Make local copy of kwarg dict.
 	local_kwargs = copy.deepcopy(kwargs)
-	# Set demand_source parameter so it only occurs at retailer nodes.
+	# Set demand_source parameter so it only occurs at retailer nodes (i.e., not at the warehouse).
 	if 'demand_source' not in local_kwargs:
 		local_kwargs['demand_source'] = {}
-	local_kwargs['demand_source'][node_order_in_system[-1]] = DemandSource()
+	elif isinstance(local_kwargs['demand_source'], DemandSource):
+		# demand_source provided as singleton; convert to dict.
+		local_kwargs['demand_source'] = {n: kwargs['demand_source'] for n in node_order_in_system[1:]}
+	local_kwargs['demand_source'][node_order_in_system[0]] = DemandSource()
 
 	# Determine node_order_in_lists.
 	if node_order_in_lists is None:
